@@ -256,6 +256,44 @@ def p_encode(prog, case, budget):
     explore(prog, run, on, stats=st, prefix=case.get('prefix'), timeout_ms=budget['solver_ms'], max_steps=budget['steps'], max_paths=budget['paths'])
     return dict(stats=st, findings=findings, samples=[], nontrivial=nontriv[0], case=case['name'])
 
+@pure('decode')
+def p_decode(prog, case, budget):
+    """IRCLinesCodec::decode hands on exactly what the line decoder of tokio_util produced: nothing is dropped, altered or invented (a frame
+    swallowed here stalls the connection: Framed stops decoding on Ok(None) although complete lines are buffered)"""
+    st = Stats(); findings = []; nontriv = [0]
+    kind, n = case['inner'], case.get('n', 0)
+    bs = [z3.BitVec(f'l{i}', 8) for i in range(n)]
+    dec = prog.resolve_crate_fn('<utils::IRCLinesCodec as tokio_util::codec::Decoder>::decode')
+    def run(M):
+        M.assume(utf8_valid_constraint(bs))
+        inner = {'none': lambda: ok(NONE()), 'line': lambda: ok(some(StringV(list(bs)))), 'toolong': lambda: err(Adt('LinesCodecError', 0, [])),
+                 'io': lambda: err(Adt('LinesCodecError', 1, [Opaque('io error')]))}[kind]()
+        M.env['inner_decode'] = inner
+        r = M.run_fn(dec, [Ref(Cell(Adt('IRCLinesCodec', 0, [Adt('LinesCodec', 0, [])]))), Ref(Cell(VecV()))])
+        return r
+    def on(r):
+        if r.kind == 'panic':
+            findings.append(dict(kind='panic', site='IRCLinesCodec::decode', what=str(r.value), predicate='decode-panic', witness=dict(profile=prog.profile)))
+            return
+        if r.kind != 'ok': return
+        nontriv[0] += 1; st.obligations += 1
+        res = r.value; M = r.M
+        good = False
+        if kind == 'none': good = res.variant == 0 and res.fields[0].variant == 0
+        elif kind == 'line':
+            if res.variant == 0 and res.fields[0].variant == 1:
+                v, _ = check_valid(M, M.values_equal(res.fields[0].fields[0], Str(list(bs))), st)
+                good = v
+        else: good = res.variant == 1 and res.fields[0].variant == (0 if kind == 'toolong' else 1)
+        if good: st.discharged += 1
+        else:
+            md = model_of(M)
+            lb = model_bytes(md, bs) if (md is not None and bs) else b''
+            findings.append(dict(kind='mismatch', site='IRCLinesCodec::decode', what=f'the line decoder returned {kind} ({lb!r}), the codec hands on something else', predicate='decode:' + kind,
+                                 witness=dict(inner=kind, line=lb.hex(), codec=True, profile=prog.profile)))
+    explore(prog, run, on, stats=st, prefix=case.get('prefix'), timeout_ms=budget['solver_ms'], max_steps=budget['steps'], max_paths=budget['paths'])
+    return dict(stats=st, findings=findings, samples=[], nontrivial=nontriv[0], case=case['name'])
+
 # ------------------------------------------------------------------------------------------ classification through the connection loop
 MINP = dict(CAP=1, PASS=1, NICK=1, USER=4, PING=1, PONG=1, OPER=2, JOIN=1, PART=1, TOPIC=1, INVITE=2, KICK=2, CONNECT=1, STATS=1, MODE=1, PRIVMSG=2, NOTICE=2, WHO=1, WHOIS=1, WHOWAS=1,
             KILL=2, SQUIT=2, USERHOST=1, WALLOPS=1, ISON=1)
@@ -309,6 +347,9 @@ def make_cases(tier, profile):
             cases.append(dict(name=f'round trip {verb} text of {n} bytes', pure='roundtrip', verb=verb, nparams=npar, n=n))
     for n in (0, 1, 3):
         cases.append(dict(name=f'encode {n} bytes', pure='encode', n=n))
+        cases.append(dict(name=f'decode hands on a line of {n} bytes', pure='decode', inner='line', n=n))
+    for k in ('none', 'toolong', 'io'):
+        cases.append(dict(name=f'decode hands on {k}', pure='decode', inner=k))
     for n in range(2, (5 if tier == 'quick' else 6) + 1):
         cases.append(dict(name=f'verb of {n} bytes with a non-ASCII character', pure='verbclass', n=n))
         cases.append(dict(name=f'verb of {n} bytes with a non-ASCII character, with parameters', pure='verbclass', n=n, tail=' bob :x'))
@@ -346,7 +387,8 @@ def confirm(run, cands):
         reqs = []
         for f in fs:
             w = f['witness']
-            if w.get('classify'): reqs.append(('from_message', [bytes.fromhex(w['line'])]))
+            if w.get('codec'): reqs.append(('codec_decode_all', [bytes.fromhex(w['line']) + b'\r\nnext\r\n']))
+            elif w.get('classify'): reqs.append(('from_message', [bytes.fromhex(w['line'])]))
             elif 'line' in w: reqs.append(('from_shared_str', [bytes.fromhex(w['line'])]))
             elif 'text' in w:
                 line = (w['verb'] + ' ' + ' '.join(['#chan'] * (w.get('nparams', 1) - 1))).strip().encode() + b' :' + bytes.fromhex(w['text'])
@@ -367,6 +409,10 @@ def confirm(run, cands):
                     want = 'Ok(Message { source: %s, command: "%s", params: [%s] })' % (
                         'None' if ref[0] is None else 'Some("%s")' % ref[0].decode('utf-8', 'replace'), ref[1].decode('utf-8', 'replace'), ', '.join('"%s"' % p.decode('utf-8', 'replace') for p in ref[2]))
                     fi.confirmed = (txt.replace('\\"', '"') != want) and not (txt.startswith('Err("Wrong source') )
+            elif rq[0] == 'codec_decode_all':
+                # the real codec over a buffer with two complete lines must yield both (confirmed when it does not)
+                want = [bytes.fromhex(w['line']).decode('utf-8', 'replace'), 'next']
+                fi.confirmed = txt != repr(want).replace("'", '"')
             elif rq[0] == 'from_message':
                 # confirmed when the real parser does not answer UnknownCommand either
                 fi.confirmed = 'UnknownCommand' not in txt
